@@ -328,7 +328,12 @@ func init() {
 }
 
 var c11v4 = func(cc *CheckCtx) {
-	cc.Notes = append(cc.Notes, "v4.0 Score is not yet part of this check in this build")
+	// the cut obligations (severity distances) are re-discharged here because this check assumes them
+	cc.runScore40(`/post/(one_decimal_in_scale|rating_accepts)$`, true)
+	for _, l := range score40Lemmas(cc.W, cc.Tier) {
+		cc.runLemma(l)
+	}
+	cc.runTask(Task{Pkg: "40", Func: "(CVSS40).macroVector", Match: `/post/eq\d$|/safety/`})
 }
 
 func init() {
@@ -353,5 +358,9 @@ func init() {
 }
 
 var c10v4 = func(cc *CheckCtx) {
-	cc.Notes = append(cc.Notes, "v4.0 Score is not yet part of this check in this build")
+	cc.runRel40()
+	cc.runTask(Task{Pkg: "40", Func: "(CVSS40).macroVector", Match: `/post/eq\d$|/safety/`})
+	for _, l := range score40Lemmas(cc.W, cc.Tier) {
+		cc.runLemma(l)
+	}
 }
